@@ -3,6 +3,7 @@
 pub mod error {
     use vstd::prelude::*;
     pub struct Error { pub inner: InnerError }
+    impl std::fmt::Debug for Error { #[verifier::external_body] fn fmt(&self, f: &mut std::fmt::Formatter<'_>) -> std::fmt::Result { Ok(()) } }
     pub enum InnerError {
         BadEventId,
         BadHexInput,
